@@ -68,7 +68,9 @@ class GroupingService:
             DataFrame with duplicate values replaced with null
         """
         # Create a mask for rows where the value is different from the previous row
-        is_first_occurrence = (df[column] != df[column].shift(1)) | (
+        # A null is a value of its own: compare with ne_missing so that a value
+        # following a null (or a null following a value) counts as a change.
+        is_first_occurrence = df[column].ne_missing(df[column].shift(1)) | (
             pl.int_range(df.height) == 0
         )  # First row is always shown
 
@@ -112,23 +114,26 @@ class GroupingService:
             # First row condition
             conditions.append(pl.int_range(df.height) == 0)
 
-            # Higher-level columns changed condition
+            # Higher-level columns changed condition (null is a value of its own)
             for higher_col in group_by[:i]:
-                conditions.append(pl.col(higher_col) != pl.col(higher_col).shift(1))
+                conditions.append(
+                    pl.col(higher_col).ne_missing(pl.col(higher_col).shift(1))
+                )
 
             # This column changed condition
-            conditions.append(pl.col(column) != pl.col(column).shift(1))
+            conditions.append(pl.col(column).ne_missing(pl.col(column).shift(1)))
 
             # Combine all conditions with OR
             should_show = conditions[0]
             for condition in conditions[1:]:
                 should_show = should_show | condition
 
-            # Apply suppression
-            suppressed_values = (
-                pl.when(should_show).then(pl.col(column)).otherwise(None)
-            )
-            result_df = result_df.with_columns(suppressed_values.alias(column))
+            # Apply suppression. The conditions are evaluated on the original
+            # data (df), not on columns that earlier iterations already blanked.
+            suppressed_values = df.select(
+                pl.when(should_show).then(pl.col(column)).otherwise(None).alias(column)
+            ).to_series()
+            result_df = result_df.with_columns(suppressed_values)
 
         return result_df
 
